@@ -35,10 +35,39 @@ class Prop(common.PropertyCheck):
 
     def gen_cases(self):
         rng = self.rng
+        for N in ([131072, 65537] if self.tier == 'quick' else [65536, 65537, 131072, 196608, 131071]):
+            yield {'big': True, 'N': N, 'cont': rng.choice(['array', 'sample']), 'seed': rng.randrange(1 << 30)}
         for _ in range(self.budget(260, 4000)):
-            yield {'N': rng.choice([1, 2, 3, 7, 40, 400]), 'D': rng.randrange(2, 7), 'data': rng.choice(['ties', 'const', 'spread', 'spread', 'modal', 'bright']),
+            yield {'N': rng.choice([1, 2, 3, 7, 40, 400]), 'D': rng.randrange(2, 7), 'data': rng.choice(['ties', 'const', 'spread', 'spread', 'modal', 'bright', 'negative']),
                    'cont': rng.choice(['array_int', 'array_float', 'array_narrow', 'sample', 'sample', 'sample_rfi', 'sample_mef', 'sample_reordered']),
                    'chform': rng.choice(['none', 'pos', 'pos0', 'name', 'name_alias', 'list', 'list1', 'perm', 'perm', 'zigzag']), 'seed': rng.randrange(1 << 30)}
+
+    def run_big(self, case):
+        """event counts around multiples of 2**16 (block-wise implementations): float reference with exact summation"""
+        r = np.random.RandomState(case['seed'] % (1 << 31))
+        N = case['N']
+        a = np.exp(r.normal(5.0, 0.7, size=(N, 2)) + np.linspace(0, 1.5, N)[:, None])      # drifting, strictly positive
+        d = a
+        if case['cont'] == 'sample':
+            spec = {'version': 'FCS3.0', 'delim': '/', 'datatype': 'F', 'byteord': '1,2,3,4', 'widths': [32, 32], 'ranges': [262144, 262144],
+                    'events': [[0, 0]], 'names': ['FL1-H', 'FL2-H'], 'pne': {'1': '0,0', '2': '0,0'}}
+            s0, _ = samples.load(spec, name='c12big.fcs')
+            d = s0[[0] * N].astype(np.float64)
+            d[:] = a
+        out = {'big': []}
+        for st in ('mean', 'std', 'gmean', 'gstd', 'gcv', 'cv'):
+            got = np.asarray(getattr(FlowCal.stats, st)(d, 1), dtype=float)
+            col = a[:, 1]
+            n = len(col)
+            m = math.fsum(col) / n
+            sd = math.sqrt(math.fsum((x - m) ** 2 for x in col) / n)
+            lg = [math.log(x) for x in col]
+            ml = math.fsum(lg) / n
+            sl = math.sqrt(math.fsum((l - ml) ** 2 for l in lg) / n)
+            want = {'mean': m, 'std': sd, 'cv': sd / m, 'gmean': math.exp(ml), 'gstd': math.exp(sl), 'gcv': math.sqrt(math.exp(sl ** 2) - 1)}[st]
+            if got.shape != () or not close(float(got), want, 1e-9):
+                out['big'].append('%s of %d events is %r, the definition gives %r' % (st, N, got.tolist(), want))
+        return out
 
     def build(self, case):
         r = np.random.RandomState(case['seed'] % (1 << 31))
@@ -53,6 +82,9 @@ class Prop(common.PropertyCheck):
             # unique mode equal to the largest value, leading the runner-up by exactly one event
             if N >= 7:
                 ev[:4, 0] = 1001; ev[4:7, 0] = 5
+        elif kind == 'negative':
+            # signed data centred below zero (background-subtracted / compensated values)
+            ev = r.randint(-900, 120, size=(N, D))
         elif kind == 'bright':
             # a 16-bit instrument with a bright channel: central values above half of the container's maximum
             ev = r.randint(40000, 65535, size=(N, D))
@@ -60,10 +92,13 @@ class Prop(common.PropertyCheck):
             ev = r.randint(1, 1023, size=(N, D))
         top = 65536 if kind == 'bright' else 1024
         cont = case['cont']
+        if kind == 'negative' and cont == 'sample_mef':
+            cont = 'sample_rfi'        # the power-law curve of this harness has no value at negative inputs
         names = None
         if cont.startswith('array'):
             if cont == 'array_narrow':
-                d = ev.astype(np.uint16) if kind == 'bright' or r.rand() < 0.5 else (ev // 8).astype(np.uint8) if r.rand() < 0.5 else (ev * 30).astype(np.int16)
+                d = (ev * 30).astype(np.int16) if kind == 'negative' else \
+                    ev.astype(np.uint16) if kind == 'bright' or r.rand() < 0.5 else (ev // 8).astype(np.uint8) if r.rand() < 0.5 else (ev * 30).astype(np.int16)
             else:
                 d = ev.astype(np.int64) if cont == 'array_int' else ev.astype(np.float64) + r.rand(N, D) * (0 if kind in ('ties', 'const', 'modal', 'bright') else 1)
         else:
@@ -72,6 +107,10 @@ class Prop(common.PropertyCheck):
                     'pne': {str(i + 1): ('4,1' if i % 2 else '0,0') for i in range(D)},
                     # channel labels ($PnS): the first channel is labelled with the NAME of the last one, the second with its own name
                     'extra': [['$P1S', ['FSC-H', 'FL1-H', 'FL2-H', 'FL3-H', 'FL4-H', 'Time'][D - 1]], ['$P2S', 'FL1-H']]}
+            if kind == 'negative':
+                import struct as _st
+                spec.update({'datatype': 'F', 'widths': [32] * D, 'pne': {str(i + 1): '0,0' for i in range(D)},
+                             'events': [[_st.unpack('<I', _st.pack('<f', float(v)))[0] for v in row] for row in ev]})
             d, _ = samples.load(spec, name='c12.fcs')
             names = list(d.channels)
             if cont == 'sample_reordered':
@@ -86,6 +125,8 @@ class Prop(common.PropertyCheck):
         return d, names
 
     def run_impl(self, case):
+        if case.get('big'):
+            return self.run_big(case)
         d, names = self.build(case)
         D = d.shape[1]
         plain = np.asarray(d)
@@ -116,7 +157,8 @@ class Prop(common.PropertyCheck):
         else:
             ch, cols = [names[0] if names else 0], [0]
         scalar = chf in ('pos', 'pos0', 'name', 'name_alias')
-        out = {'cols': [[bits(v) for v in plain[:, c]] for c in cols], 'res': {}, 'plain': {}, 'shape_ok': {}, 'scalar': scalar}
+        out = {'cols': [[bits(v) for v in plain[:, c]] for c in cols], 'res': {}, 'plain': {}, 'shape_ok': {}, 'scalar': scalar,
+               'single_precision': bool(plain.dtype == np.float32)}
         for st in STATS:
             f = getattr(FlowCal.stats, st)
             try:
@@ -137,6 +179,8 @@ class Prop(common.PropertyCheck):
         fcsgen.cleanup()
 
     def oracle(self, case, impl):
+        if case.get('big'):
+            return None if not impl['big'] else '%s (%s)' % (impl['big'][0], case['cont'])
         for st in STATS:
             r = impl['res'][st]
             if isinstance(r, str):
@@ -171,7 +215,8 @@ class Prop(common.PropertyCheck):
                 got = impl['res'][st][j]
                 if w is None:
                     continue
-                if not close(got, w, 1e-9):
+                # single-precision samples: NumPy reduces float32 data in float32 (documented NumPy behaviour, relative error ~1e-7 per value)
+                if not close(got, w, 5e-6 if impl.get('single_precision') else 1e-9):
                     return '%s of channel %d is %r, the definition gives %r (n=%d, data %s)' % (st, j, got, w, n, case['data'])
             mode = impl['res']['mode'][j]
             cnt = {}
@@ -181,15 +226,17 @@ class Prop(common.PropertyCheck):
                 return 'mode of channel %d is %r which occurs %d times; the most frequent value occurs %d times' % (j, mode, cnt.get(mode, 0), max(cnt.values()))
             # identities
             r = impl['res']
-            if want['cv'] is not None and not close(r['cv'][j], r['std'][j] / r['mean'][j], 1e-12):
+            if want['cv'] is not None and not close(r['cv'][j], r['std'][j] / r['mean'][j], 1e-6 if impl.get('single_precision') else 1e-12):
                 return 'CV != SD/mean'
-            if want['rcv'] is not None and not close(r['rcv'][j], r['iqr'][j] / r['median'][j], 1e-12):
+            if want['rcv'] is not None and not close(r['rcv'][j], r['iqr'][j] / r['median'][j], 1e-6 if impl.get('single_precision') else 1e-12):
                 return 'robust CV != IQR/median'
             if 'gstd' in want and not close(r['gcv'][j], math.sqrt(math.exp(math.log(r['gstd'][j]) ** 2) - 1), 1e-9):
                 return 'geometric CV != sqrt(exp(ln(gstd)^2)-1)'
         return None
 
     def model_request(self, case, impl):
+        if case.get('big'):
+            return None
         if isinstance(impl['res']['mode'], str):
             return None
         return {'op': 'stats', 'col': impl['cols'][0], 'mode': bits(impl['res']['mode'][0])}
@@ -202,14 +249,16 @@ class Prop(common.PropertyCheck):
             if isinstance(r, str):
                 return 'impl %s raised, model has a value' % st
             w = float(Fraction(model[key][0], model[key][1]))
-            if not close(r[0], w, 1e-12):
+            if not close(r[0], w, 5e-6 if impl.get('single_precision') else 1e-12):
                 return '%s: impl %r vs exact model %r' % (st, r[0], w)
         var = float(Fraction(model['variance'][0], model['variance'][1]))
-        if not isinstance(impl['res']['std'], str) and not close(impl['res']['std'][0] ** 2, var, 1e-10):
+        if not isinstance(impl['res']['std'], str) and not close(impl['res']['std'][0] ** 2, var, 1e-5 if impl.get('single_precision') else 1e-10):
             return 'std^2: impl %r vs exact variance %r' % (impl['res']['std'][0] ** 2, var)
         if model['mode_ok'] is not True:
             return 'model: the returned mode %r is not a most frequent value' % impl['res']['mode'][0]
         return None
 
     def nontrivial_key(self, case, impl):
+        if case.get('big'):
+            return ('big', case['cont'], case['N'])
         return (case['cont'], case['chform'], case['data'], min(case['N'], 8))
